@@ -2,7 +2,7 @@ SPECIFICATION Spec
 CONSTANTS
   KF_IntermediateAKCounts = TRUE
   MaxSigners = 4
-  NestedChoices = 4
+  NestedChoices = 3
   WithNegative = TRUE
   MaxOps = 100
 INVARIANTS TypeOK EvalEqSat
